@@ -6,6 +6,7 @@ from dataclasses import dataclass, field
 
 class MultipleGroundNodes(Exception): pass
 class AmbiguousComponentID(Exception): pass
+class UnknownComponentType(Exception): pass
 
 @dataclass
 class Circuit:
@@ -25,6 +26,9 @@ class Circuit:
             self.ground_node = ground_nodes[0]
         if len(set([component.id for component in self.components])) != len(self.components):
             raise AmbiguousComponentID(f'Component list contains multiple components with the same ID.')
+        unknown_types = [component.type for component in self.components if component.type != 'ground' and component.type not in transformers.keys()]
+        if len(unknown_types) > 0: # such a component would silently be left out of every analysis
+            raise UnknownComponentType(f'Component list contains components of unknown type: {str(unknown_types)}')
 
     def __getitem__(self, key: str) -> Component:
         index = [component.id for component in self.components].index(key)
